@@ -353,7 +353,30 @@ fn arb_agents(max_items: usize) -> impl Strategy<Value = Vec<AgentDef>> {
     ]
 }
 
-fn arb_op(reopen_weight: u32, lifecycle_weight: u32) -> impl Strategy<Value = Op> {
+fn arb_op(reopen_weight: u32, lifecycle: bool) -> BoxedStrategy<Op> {
+    if lifecycle {
+        prop_oneof![
+            23 => arb_base_op(reopen_weight),
+            6 => arb_lifecycle_op(),
+        ]
+        .boxed()
+    } else {
+        arb_base_op(reopen_weight).boxed()
+    }
+}
+
+/// Corners of `PlanePersistence::node_store`: requests that are left outstanding, abandoned, resolved
+/// late or resolved while another handle is in use.
+fn arb_lifecycle_op() -> impl Strategy<Value = Op> {
+    prop_oneof![
+        1 => any::<u16>().prop_map(Op::Stop),
+        2 => any::<u16>().prop_map(Op::Request),
+        2 => (any::<u16>(), any::<u16>()).prop_map(|(a, w)| Op::Abandon(a, w)),
+        1 => (any::<u16>(), any::<u16>(), any::<bool>()).prop_map(|(a, w, n)| Op::Resolve(a, w, n)),
+    ]
+}
+
+fn arb_base_op(reopen_weight: u32) -> impl Strategy<Value = Op> {
     prop_oneof![
         2 => any::<u16>().prop_map(Op::Id),
         9 => (any::<u16>(), arb_key(), arb_val()).prop_map(|(i, k, v)| Op::Write(i, k, v)),
@@ -363,10 +386,6 @@ fn arb_op(reopen_weight: u32, lifecycle_weight: u32) -> impl Strategy<Value = Op
         reopen_weight => any::<u16>().prop_map(Op::ReopenNode),
         reopen_weight => any::<u16>().prop_map(Op::Handover),
         reopen_weight => Just(Op::ReopenAll),
-        lifecycle_weight => any::<u16>().prop_map(Op::Stop),
-        2 * lifecycle_weight => any::<u16>().prop_map(Op::Request),
-        2 * lifecycle_weight => (any::<u16>(), any::<u16>()).prop_map(|(a, w)| Op::Abandon(a, w)),
-        lifecycle_weight => (any::<u16>(), any::<u16>(), any::<bool>()).prop_map(|(a, w, n)| Op::Resolve(a, w, n)),
     ]
 }
 
@@ -379,7 +398,7 @@ fn arb_prealloc() -> impl Strategy<Value = u16> {
 
 /// Histories for the model-based sub-checks (1-3 agents x 1-4 items).
 pub fn arb_case() -> impl Strategy<Value = Case> {
-    (arb_agents(4), arb_prealloc(), proptest::collection::vec(arb_op(1, 1), 1..48))
+    (arb_agents(4), arb_prealloc(), proptest::collection::vec(arb_op(1, true), 1..48))
         .prop_map(|(agents, prealloc, ops)| Case { agents, prealloc, ops })
 }
 
@@ -388,7 +407,7 @@ pub fn arb_case() -> impl Strategy<Value = Case> {
 /// ReopenNode for RocksDB).
 pub fn arb_kill_history() -> impl Strategy<Value = Case> {
     let op = prop_oneof![
-        12 => arb_op(1, 0),
+        12 => arb_op(1, false),
         1 => any::<u16>().prop_map(Op::Id),
     ];
     (arb_agents(6), proptest::collection::vec(op, 4..60)).prop_map(|(agents, ops)| Case { agents, prealloc: 0, ops })
